@@ -94,6 +94,13 @@ CLAIMED = {
         "note": "Trusted: z3 (ring identities), symx, FFTStub exact DFT, NdiStub.sum_labels, Cauchy-Schwarz per shell as a lemma for [-1,1], C09's dask/rng stubs. Bounds: boxes with sides in {1,2,4}, <= 8 voxels quick / <= 32 thorough, (box, dfreq) pairs without empty shells. Not covered: other box sides, uint16 label overflow for tiny dfreq, the numeric value of the backend fsc() score.",
         "ref": "DESIGN.md §4 C17",
     },
+    "C19": {
+        "text": "The real pipeline classes executed on images of symbolic voxels with uninterpreted voxel-wise converters and scale-dependent providers: +,-,*,/ between pipelines and with a scalar on either side, unary minus and comparison give the voxel-wise expression; compose/@ is function application in order and associative, with_scale partialises, provider/converter_function curry. "
+                "Unit handling executed with symbolic scale and parameters and recorded scipy.ndimage calls: radius_px = 0 if |r/scale|<1 else ceil|r/scale| and is invariant under (r,scale)->(lr,ls); dilation/closing dispatch on the sign and use the closed ball of that radius; gaussian_filter/shift/gaussian_smooth/from_array receive sigma/scale, shift/scale, orig/scale; "
+                "from_gaussian's exponent is -1/2 sum((x-c)/sigma)^2 with c=(n-1)/2+shift/scale for every voxel; LoaderBase.normalize_template/mask/input pass the loader's scale.",
+        "note": "Trusted: z3 (nlsat for the rational unit identities), symx, recorded (not evaluated) scipy.ndimage calls, exp/ceil as uninterpreted/ToInt terms. Bounds: 1x1x2 images for operators, |r/scale| <= 3 for morphology structures, from_gaussian boxes up to 3 voxels per axis. Not covered: from_file/from_files/from_atoms/from_pdb (I/O), lowpass/highpass (C16), threshold_otsu/soft_otsu histograms, resize/zoom interpolation values.",
+        "ref": "DESIGN.md §4 C19",
+    },
 }
 
 NOT_APPLICABLE = {
